@@ -206,6 +206,8 @@ int unlink(const char *path) {
     pthread_mutex_lock(&mu);
     const char *t = path + 11;
     if (strncmp(t, "failat ", 7) == 0) { fail_at = atol(t + 7); counter = 0; fail_tid = (long)syscall(SYS_gettid); }
+    /* an injector that did not fire must not leak into the next case */
+    if (strncmp(t, "case ", 5) == 0 || strcmp(t, "end") == 0) { fail_at = 0; counter = 0; }
     logf_("mark %s\n", t);
     pthread_mutex_unlock(&mu);
     errno = ENOENT;
